@@ -13,6 +13,7 @@ spec -> code : TLC enumerates report trees (shape in pre-order encoding x titles
 code -> spec : seeded random trees outside the enumerated domain (more sections, arbitrary title strings,
                results with figures) are written and validated by ReportTreeTrace.tla.
 """
+import hashlib
 import json
 import os
 import re
@@ -251,7 +252,7 @@ def judge_writes(writes_of, wd, tag, account=None):
     uniq, members = {}, []
     for ci, writes in enumerate(writes_of):
         for wi, o in enumerate(writes):
-            sig = json.dumps(trace_record(0, o['tree'], o), sort_keys=True)
+            sig = hashlib.sha1(json.dumps(trace_record(0, o['tree'], o), sort_keys=True).encode()).digest()
             if sig not in uniq:
                 uniq[sig] = len(members)
                 members.append([])
